@@ -8,6 +8,10 @@ types, some pre-allocated)  --real allocator-->  register of every value (read b
       the hard-wired `zero` register are constant 0;
   (2) pre-assigned registers kept, only registers of the pool (or `zero` for constant 0, or j_N when
       infinite registers are allowed) handed out, structural register ties (in/out, loop-carried);
+      registers that an operation ANYWHERE in the function (top level, loop body, frep body, any depth)
+      reserves for itself — Snitch stream registers ft0..ft2 of riscv_snitch.read / write, or the
+      registers of the harness-defined `c19.reserve` — are never handed out: a value sits in one only
+      when the input pre-assigns it or ties it to a pre-assigned value;
   (3) differential execution: SSA semantics vs register machine (loop lowered exactly as
       convert-riscv-scf-to-riscv-cf does) on random inputs.
 Lean: the proved validator (`XdslProofs.C19.validator_sound`) is run on every straight-line real
@@ -24,7 +28,7 @@ META = {
     "title": "Register allocation never gives one register to two live values",
     "category": "proof",
     "design_ref": "DESIGN.md §5 C19",
-    "lean_modules": ["XdslProofs.C19", "XdslProofs.C19Stack"],
+    "lean_modules": ["XdslProofs.C19", "XdslProofs.C19Stack", "XdslProofs.C19Excluded"],
     "text": (
         "Lean theorems over straight-line blocks of operations with ins/outs/in-out pairs, for EVERY instruction "
         "semantics (opcode meaning is a parameter), all inputs and all initial register contents: "
@@ -48,6 +52,17 @@ META = {
         "is present iff its count is positive, under the documented contract (never reserve an available register) "
         "no AssertionError arises (contract_no_assertion), and the allocator model's push/pop are this stack without "
         "reservations (push_eq_spush, pop_eq_spop). "
+        "Reserved registers (XdslProofs.C19Excluded): all_excluded_registers is modelled as the walk over a tree of "
+        "operations (declared registers, nested operations); mem_allExcluded_iff: a register is collected iff an "
+        "operation of the body or one nested in it at ANY depth declares it (allExcluded_nested2, allExcluded_sorted; "
+        "shallowExcluded_subset / shallowExcluded_misses_nested: looking at the top-level operations only is a "
+        "strict under-approximation); allocate_func with the collected registers excluded (allocateX, initStX = "
+        "exclude_register after RegisterStack.get; initStX_eq / allocateX_eq: the same as building the stack "
+        "without them) never hands one out: excluded_respected_partial (a value that was not pre-assigned sits in "
+        "a declared register only if in/out ties with pre-assigned values force it), excluded_never_assigned "
+        "(never, on a target without in/out pairs), alloc_origin_partial (where every register comes from: pool "
+        "minus pre-assigned, infinite, zero for constant 0, or forced by ties), exclOk_sound (reading of the "
+        "validator's reserved-register check). "
         "Tie to /repo: every generated function (riscv and x86 dialect ops, pre-assigned registers, restricted "
         "pools, infinite registers, riscv_scf.for loops incl. nested, x86 after x86-regalloc-legalize) is built as "
         "real IR and allocated by the real pass/allocator; the registers are read back and (a) judged by an "
@@ -55,8 +70,11 @@ META = {
         "(b) validated by the proved Lean validator (translation validation): loop-free blocks directly, "
         "functions with riscv_scf.for loops after unrolling the loops along their execution path (all generated "
         "loops have constant bounds; every copy of a value keeps its register), and "
-        "(c) for loop-free integer blocks compared register by register with the Lean model allocator, "
-        "including the failure kind (OutOfRegisters / DiagnosticException); (d) the real RegisterStack API is "
+        "(c) for loop-free integer blocks compared register by register with the Lean model allocator "
+        "(incl. registers declared as excluded by c19.reserve operations), "
+        "including the failure kind (OutOfRegisters / DiagnosticException); (e) for EVERY generated function the "
+        "real RegisterAllocatableOperation.all_excluded_registers(func.body) is compared with the Lean model "
+        "allExcluded of its operation tree (driver model excluded_walk); (d) the real RegisterStack API is "
         "driven directly through every call sequence of the small scope and compared, result and complete state "
         "after every call, with the Lean model (driver model register_stack)."
     ),
@@ -75,14 +93,29 @@ META = {
         "hand-written models XdslModel/{RegMachine,RegAlloc}.lean (tied by correspondence on every generated "
         "case); the builder/extractor between the JSON program and xDSL IR; the per-opcode read/write table of "
         "this file (independent of get_register_constraints); float instructions get an arbitrary deterministic "
-        "bit semantics (same on both machines)."
+        "bit semantics (same on both machines). Reserved registers: the property's clause is read as 'a register "
+        "that some operation of the function declares through iter_excluded_registers is not handed out'; the table "
+        "of what riscv_snitch.read / write reserve (ft0, ft1, ft2) is transcribed in this file, and c19.reserve is an "
+        "operation DEFINED BY THE HARNESS against xDSL's public interface (HasRegisterConstraints without operands / "
+        "results + iter_excluded_registers) so that int / float / x86 registers can be reserved at any depth; a value "
+        "in a reserved register is accepted when the input pre-assigns it or ties it (in/out pair, loop-carried group) "
+        "to a pre-assigned value. Stream reads / writes are opaque to the Lean validator (a definition / a use); on "
+        "both Python machines the n-th read of a stream delivers the same arbitrary word and written words are "
+        "observable output. riscv_snitch.frep_outer: body replayed rep+1 times, count read once (transcribed from "
+        "xdsl/interpreters/riscv_snitch.py), unrolled for the Lean validator like riscv_scf.for. Values that a "
+        "loop-carried group ties to a pre-assigned block argument / result count as pre-assigned in the unrolled program."
     ),
     "rule": (
         "One evaluation = one generated function run through the real allocator and judged. Streams: riscv "
         "straight-line DAGs (int+float, parallel moves, get_register zero), riscv loops (riscv_scf.for with "
         "iter_args, nested, pass-through / fresh yields), riscv loops violating the in/out discipline (small "
         "share), fans with k=1..17 simultaneously live values against pools of k-1..k+1 registers, x86 "
-        "straight-line with in/out ops (disciplined) and arbitrary ones after x86-regalloc-legalize; 35% with "
+        "straight-line with in/out ops (disciplined) and arbitrary ones after x86-regalloc-legalize; riscv.streams: "
+        "functions with Snitch stream reads / writes (ports ft0..ft2 pre-assigned as the snitch lowering does) at the "
+        "top level and / or ONLY inside riscv_scf.for bodies / riscv_snitch.frep_outer bodies (depth 1..3) together "
+        "with ordinary float values, frep_outer loops with float iter_args; 12% of all non-fan cases additionally get "
+        "1..3 c19.reserve operations (1..3 int / float / x86 registers each, mostly the ones the stack hands out first) "
+        "at the top level and / or only in loop bodies; 35% with "
         "extra pre-assigned registers, 35% with restricted pools of 1..8 registers, some with infinite "
         "registers. Plus the RegisterStack API stream: every sequence of push/pop/include/exclude/reserve/unreserve "
         "over t0,t1,t2,j_0 with and without infinite registers up to the stated length (one evaluation per call; "
@@ -94,6 +127,9 @@ META = {
         "correspondence harness harness/props/c19.py (IR builder, extractor by position, Python oracle)",
         "hand-written Lean models XdslModel/RegMachine.lean, XdslModel/RegAlloc.lean",
         "loop lowering semantics transcribed from convert_riscv_scf_to_riscv_cf.py (Python oracle only)",
+        "hand-written Lean model XdslModel/Excluded.lean (operation tree walk), tied on every generated function",
+        "harness-defined operation c19.reserve (iter_excluded_registers = its attribute) and the transcribed table "
+        "of registers reserved by riscv_snitch.read / write",
     ],
     "budget": {"quick": 60, "thorough": 900},
 }
@@ -167,7 +203,17 @@ RV_KINDS: dict[str, tuple[str, str, int, bool]] = {
     "fcvt.s.w": ("i", "f", 0, False), "fcvt.w.s": ("f", "i", 0, False), "fmv.s": ("f", "f", 0, False),
     "fadd.s": ("ff", "f", 0, False), "fmul.s": ("ff", "f", 0, False), "fsub.s": ("ff", "f", 0, False),
     # "pmov" is variadic: n ins, n outs (classes given per case)
+    # Snitch stream access: `sread` defines a value in the stream register it is pre-assigned to (every
+    # read pops the stream), `swrite` pushes a value that sits in a stream register.  `resv` is the
+    # harness-defined operation `c19.reserve` (no operands, no results) that declares registers as
+    # excluded through the public interface RegisterAllocatableOperation.iter_excluded_registers.
+    "sread": ("", "f", 0, False), "swrite": ("f", "", 0, False), "resv": ("", "", 0, False),
 }
+# Registers that an operation reserves for itself while it is present ANYWHERE in the function
+# ("registers that should not be used when this operation is present"); independent transcription of the
+# Snitch rule (ft0, ft1, ft2 are stream ports while streaming), NOT taken from iter_excluded_registers.
+STREAM_REGS = ["ft0", "ft1", "ft2"]
+RESERVING: dict[str, list[str]] = {"sread": STREAM_REGS, "swrite": STREAM_REGS}
 X86_KINDS: dict[str, tuple[str, str, int, bool]] = {
     "di.mov": ("", "i", 0, True),
     "ds.mov": ("i", "i", 0, False),
@@ -178,6 +224,7 @@ X86_KINDS: dict[str, tuple[str, str, int, bool]] = {
     "ri.or": ("", "", 1, True), "ri.xor": ("", "", 1, True),
     "r.neg": ("", "", 1, False), "r.not": ("", "", 1, False), "r.inc": ("", "", 1, False),
     "r.dec": ("", "", 1, False),
+    "resv": ("", "", 0, False),
 }
 
 
@@ -249,15 +296,24 @@ def op_sem(target: str, kind: str, imm: int | None, reads: list[int]) -> list[in
 #   op   = {"k", "imm"?, "ins": [vid], "outs": [[vid, cls, reg|None]], "io": [[vin, [vout, cls, reg|None]]]}
 #   loop = {"k": "for", "lb", "ub", "step": int | {"v": vid}, "inits": [vid], "iv": [vid,"i",reg],
 #           "bargs": [[vid,cls,reg]], "body": [...], "yields": [vid], "res": [[vid,cls,reg]]}
+#   frep = {"k": "for", "frep": True, "rep": vid, "iv": None, "inits", "bargs", "body", "yields", "res"}
+#          (riscv_snitch.frep_outer: the body runs rep+1 times, no induction variable; float-only body)
 # =============================================================================================
 
 def op_reads(op: dict) -> list[int]:
     if op["k"] == "for":
+        if op.get("frep"):
+            return [op["rep"]] + list(op["inits"])
         r = [op["lb"], op["ub"]]
         if isinstance(op["step"], dict):
             r.append(op["step"]["v"])
         return r + list(op["inits"])
     return list(op["ins"]) + [p[0] for p in op.get("io", [])]
+
+
+def loop_bound(op: dict) -> set[int]:
+    """values that a loop binds in its body: induction variable (not for frep) and block arguments"""
+    return ({op["iv"][0]} if op.get("iv") else set()) | {b[0] for b in op["bargs"]}
 
 
 def op_defs(op: dict) -> list[list]:
@@ -275,7 +331,8 @@ def all_values(case: dict) -> dict[int, tuple[str, str | None]]:
             for d in op_defs(op):
                 vals[d[0]] = (d[1], d[2])
             if op["k"] == "for":
-                vals[op["iv"][0]] = (op["iv"][1], op["iv"][2])
+                if op.get("iv"):
+                    vals[op["iv"][0]] = (op["iv"][1], op["iv"][2])
                 for b in op["bargs"]:
                     vals[b[0]] = (b[1], b[2])
                 block(op["body"])
@@ -284,6 +341,39 @@ def all_values(case: dict) -> dict[int, tuple[str, str | None]]:
         vals[a[0]] = (a[1], a[2])
     block(case["ops"])
     return vals
+
+
+def op_reserves(op: dict) -> list[str]:
+    """registers that `op` itself declares as reserved for the whole function"""
+    return list(op["regs"]) if op["k"] == "resv" else list(RESERVING.get(op["k"], []))
+
+
+def declared_reserved(case: dict) -> dict[str, str]:
+    """register -> where it is declared, over the operations of the function at EVERY nesting depth"""
+    out: dict[str, str] = {}
+
+    def block(ops, where):
+        for idx, op in enumerate(ops):
+            here = f"{where} op#{idx}({op['k']})"
+            for r in op_reserves(op):
+                out.setdefault(r, here)
+            if op["k"] == "for":
+                block(op["body"], here + " body")
+
+    block(case["ops"], "func")
+    return out
+
+
+def reserve_tree(case: dict) -> str:
+    """the operation tree with the registers each operation declares, for the Lean model of
+    all_excluded_registers: op = `( reg* op* )`"""
+    t = case["target"]
+
+    def block(ops):
+        return " ".join("( " + " ".join(str(reg_num(t, r)) for r in op_reserves(op))
+                        + (" " + block(op["body"]) if op["k"] == "for" else "") + " )" for op in ops)
+
+    return " ".join(("walk " + block(case["ops"])).split())
 
 
 def has_loops(case: dict) -> bool:
@@ -302,7 +392,7 @@ def body_live_ins(ops: list[dict], bound: set[int]) -> set[int]:
                 if r not in defined:
                     used.add(r)
             if op["k"] == "for":
-                inner = set(defined) | {op["iv"][0]} | {b[0] for b in op["bargs"]}
+                inner = set(defined) | loop_bound(op)
                 block_with_yield(op, inner)
             for d in op_defs(op):
                 defined.add(d[0])
@@ -316,7 +406,7 @@ def body_live_ins(ops: list[dict], bound: set[int]) -> set[int]:
                 if r not in sub_defined:
                     used.add(r)
             if op["k"] == "for":
-                block_with_yield(op, sub_defined | {op["iv"][0]} | {b[0] for b in op["bargs"]})
+                block_with_yield(op, sub_defined | loop_bound(op))
             for d in op_defs(op):
                 sub_defined.add(d[0])
         for y in loop["yields"]:
@@ -329,7 +419,7 @@ def body_live_ins(ops: list[dict], bound: set[int]) -> set[int]:
 
 def loop_live_ins(loop: dict) -> set[int]:
     """values defined outside the loop body and used inside it (incl. by the yield)"""
-    bound = {loop["iv"][0]} | {b[0] for b in loop["bargs"]}
+    bound = loop_bound(loop)
     pseudo = list(loop["body"]) + [{"k": "_use", "ins": list(loop["yields"]), "outs": [], "io": []}]
     return body_live_ins(pseudo, bound)
 
@@ -447,11 +537,18 @@ def check_interference(case: dict, alloc: dict[int, str | None], zero_name: str 
     def loop(op: dict, live_after: set[int], here: str) -> set[int]:
         res = [d[0] for d in op["res"]]
         bargs = [b[0] for b in op["bargs"]]
-        iv = op["iv"][0]
         for k in range(len(res)):
             tie([op["inits"][k], bargs[k], op["yields"][k], res[k]], here + f" loop-carried #{k}")
         for r in res:
             def_check(r, live_after - set(res), here + " exit")
+        if op.get("frep"):
+            # `frep.o rep, n`: the repetition count is read once, the body is replayed rep+1 times
+            through = (live_after - set(res)) | loop_live_ins(op)
+            body_in = block(op["body"], through | set(op["yields"]), here + " body")
+            at_entry = body_in | through
+            pairwise(at_entry, here + " body entry")
+            return (at_entry - set(bargs)) | {op["rep"]} | set(op["inits"])
+        iv = op["iv"][0]
         through = (live_after - set(res)) | loop_live_ins(op) | {op["ub"]}
         if isinstance(op["step"], dict):
             through.add(op["step"]["v"])
@@ -519,7 +616,7 @@ def canonical_alloc(case: dict, ties: bool = True) -> dict[int, str]:
     return out
 
 
-def feasibility(case: dict, ties: bool = True) -> str | None:
+def feasibility(case: dict, ties: bool = True, zero_groups: bool = False) -> str | None:
     """None when some register assignment can satisfy the property for this input (ties + pre-assignment
     are consistent with liveness); otherwise the reason.  Inputs that are infeasible cannot be
     allocated correctly by ANY allocator: the only correct behaviour is to report failure.
@@ -529,6 +626,19 @@ def feasibility(case: dict, ties: bool = True) -> str | None:
     for v, r in ca.items():
         if r.startswith("multi:"):
             return f"tie-conflict: %{v} is tied to several pre-assigned registers {r[6:]}"
+    if zero_groups and case["target"] == "riscv":
+        # a group of tied values that are all the constant 0 (e.g. `iter_args(%a = %zero)` yielding
+        # %zero again) can live in the hard-wired zero register, where values do not interfere.  (Not
+        # part of the classification of inputs: riscv_scf.for ties such a group in an ordinary register
+        # just as well, which is the known loop-discipline finding.)
+        zc = zero_constants(case)
+        groups: dict[str, list[int]] = {}
+        for v, r in ca.items():
+            groups.setdefault(r, []).append(v)
+        for r, vs in groups.items():
+            if r.startswith("virt") and all(v in zc for v in vs):
+                for v in vs:
+                    ca[v] = "zero"
     try:
         check_interference(case, ca, zero_name="zero" if case["target"] == "riscv" else None, check_ties=ties)
     except Clash as c:
@@ -546,6 +656,32 @@ class Diverged(Exception):
     pass
 
 
+SIDE_KINDS = ("sread", "swrite", "resv")
+
+
+class Streams:
+    """Snitch streams as seen by both machines: the n-th `sread` of a stream register delivers a fixed
+    arbitrary word (the stream is popped by every read), `swrite` appends the written word to the
+    observable output of the function, `resv` does nothing."""
+
+    def __init__(self):
+        self.pops: dict[str, int] = {}
+        self.written: list[int] = []
+
+    def step(self, op: dict, reads: list[int]) -> list[int]:
+        if op["k"] == "sread":
+            port = op["outs"][0][2] or "?"
+            n = self.pops.get(port, 0)
+            self.pops[port] = n + 1
+            return [_mix(0x5EAD, STREAM_REGS.index(port) if port in STREAM_REGS else 9, n)]
+        if op["k"] == "swrite":
+            self.written.append(reads[0])
+        return []
+
+    def observed(self) -> list:
+        return [["streamed", list(self.written)]] if self.written else []
+
+
 def width(case: dict) -> int:
     return 32 if case["target"] == "riscv" else 64
 
@@ -560,7 +696,18 @@ def exec_ssa(case: dict, inputs: list[int]) -> list[int]:
 
     def block(ops):
         for op in ops:
-            if op["k"] == "for":
+            if op["k"] == "for" and op.get("frep"):
+                carried = [env[i] for i in op["inits"]]
+                if env[op["rep"]] + 1 > LOOP_FUEL:
+                    raise Diverged()
+                for _ in range(env[op["rep"]] + 1):
+                    for b, x in zip(op["bargs"], carried):
+                        env[b[0]] = x
+                    block(op["body"])
+                    carried = [env[y] for y in op["yields"]]
+                for r, x in zip(op["res"], carried):
+                    env[r[0]] = x
+            elif op["k"] == "for":
                 iv = env[op["lb"]]
                 carried = [env[i] for i in op["inits"]]
                 n = 0
@@ -579,12 +726,13 @@ def exec_ssa(case: dict, inputs: list[int]) -> list[int]:
                     env[r[0]] = x
             else:
                 reads = [env[v] for v in op["ins"]] + [env[p[0]] for p in op.get("io", [])]
-                outs = op_sem(t, op["k"], op.get("imm"), reads)
+                outs = streams.step(op, reads) if op["k"] in SIDE_KINDS else op_sem(t, op["k"], op.get("imm"), reads)
                 for d, x in zip(op_defs(op), outs):
                     env[d[0]] = x
 
+    streams = Streams()
     block(case["ops"])
-    return [env[r] for r in case["rets"]]
+    return [env[r] for r in case["rets"]] + streams.observed()
 
 
 def exec_regs(case: dict, alloc: dict[int, str], inputs: list[int], junk: int) -> list[int]:
@@ -614,7 +762,13 @@ def exec_regs(case: dict, alloc: dict[int, str], inputs: list[int], junk: int) -
 
     def block(ops):
         for op in ops:
-            if op["k"] == "for":
+            if op["k"] == "for" and op.get("frep"):
+                times = rd(op["rep"]) + 1                           # frep.o rep, <n instructions>
+                if times > LOOP_FUEL:
+                    raise Diverged()
+                for _ in range(times):
+                    block(op["body"])
+            elif op["k"] == "for":
                 wr(op["iv"][0], rd(op["lb"]))                       # mv iv, lb
                 n = 0
                 if _s(rd(op["iv"][0]), w) < _s(rd(op["ub"]), w):     # bge iv, ub, end
@@ -629,12 +783,13 @@ def exec_regs(case: dict, alloc: dict[int, str], inputs: list[int], junk: int) -
                             break
             else:
                 reads = [rd(v) for v in op["ins"]] + [rd(p[0]) for p in op.get("io", [])]
-                outs = op_sem(t, op["k"], op.get("imm"), reads)
+                outs = streams.step(op, reads) if op["k"] in SIDE_KINDS else op_sem(t, op["k"], op.get("imm"), reads)
                 for d, x in zip(op_defs(op), outs):
                     wr(d[0], x)
 
+    streams = Streams()
     block(case["ops"])
-    return [rd(r) for r in case["rets"]]
+    return [rd(r) for r in case["rets"]] + streams.observed()
 
 
 # =============================================================================================
@@ -673,6 +828,24 @@ def build_ir(case: dict):
 
         def mk(op):
             k = op["k"]
+            if k == "for" and op.get("frep"):
+                from xdsl.dialects import riscv_snitch
+                from xdsl.rewriter import Rewriter
+
+                body = Block(arg_types=[_rv_type(b[1], b[2]) for b in op["bargs"]])
+                for b, a in zip(op["bargs"], body.args):
+                    env[b[0]] = a
+                for o in op["body"]:
+                    body.add_op(mk(o))
+                body.add_op(riscv_snitch.FrepYieldOp(*[env[y] for y in op["yields"]]))
+                f = riscv_snitch.FrepOuterOp(env[op["rep"]], Region(body), [env[i] for i in op["inits"]])
+                for idx, r in enumerate(op["res"]):
+                    want = _rv_type(r[1], r[2])
+                    if f.results[idx].type != want:
+                        Rewriter.replace_value_with_new_type(f.results[idx], want)
+                for r, v in zip(op["res"], f.results):
+                    env[r[0]] = v
+                return f
             if k == "for":
                 body = Block(arg_types=[_rv_type(op["iv"][1], op["iv"][2])] + [_rv_type(b[1], b[2]) for b in op["bargs"]])
                 env[op["iv"][0]] = body.args[0]
@@ -695,6 +868,18 @@ def build_ir(case: dict):
                 return f
             ins = [env[v] for v in op["ins"]]
             outs = op["outs"]
+            if k == "resv":
+                return make_reserve_op("riscv", op["regs"])
+            if k == "sread":
+                from xdsl.dialects import riscv_snitch
+
+                o = riscv_snitch.ReadOp(stream_value("readable", _rv_type("f", outs[0][2])))
+                env[outs[0][0]] = o.res
+                return o
+            if k == "swrite":
+                from xdsl.dialects import riscv_snitch
+
+                return riscv_snitch.WriteOp(ins[0], stream_value("writable", ins[0].type))
             if k == "li":
                 o = rv32.LiOp(op["imm"], rd=_rv_type("i", outs[0][2]))
             elif k == "getzero":
@@ -713,8 +898,23 @@ def build_ir(case: dict):
         blk = Block(arg_types=[_rv_type(a[1], a[2]) for a in case["args"]])
         for a, v in zip(case["args"], blk.args):
             env[a[0]] = v
-        for op in case["ops"]:
-            blk.add_op(mk(op))
+        stream_defs: dict[tuple[str, Any], Any] = {}
+
+        def stream_value(direction: str, elem_type):
+            """the stream a read / write goes through: result of a `test.op` at the top of the function
+            (as in the pinned filecheck tests); not a register value, the allocator ignores it"""
+            from xdsl.dialects import snitch
+            from xdsl.dialects.test import TestOp
+
+            key = (direction, elem_type)
+            if key not in stream_defs:
+                T = snitch.ReadableStreamType if direction == "readable" else snitch.WritableStreamType
+                stream_defs[key] = TestOp(result_types=[T(elem_type)])
+            return stream_defs[key].results[0]
+
+        body_ops = [mk(op) for op in case["ops"]]
+        for o in list(stream_defs.values()) + body_ops:
+            blk.add_op(o)
         blk.add_op(riscv_func.ReturnOp(*[env[r] for r in case["rets"]]))
         func = riscv_func.FuncOp("main", Region(blk), ([a.type for a in blk.args], [env[r].type for r in case["rets"]]))
     else:
@@ -729,6 +929,8 @@ def build_ir(case: dict):
 
         def mkx(op):
             k = op["k"]
+            if k == "resv":
+                return make_reserve_op("x86", op["regs"])
             ins = [env[v] for v in op["ins"]]
             if k == "di.mov":
                 o = XO[k](op["imm"], destination=_x86_type(op["outs"][0][2]))
@@ -758,6 +960,40 @@ def build_ir(case: dict):
 
 
 _X86_REV: dict[str, str] = {}
+_RESERVE: dict[str, Any] = {}
+
+
+def make_reserve_op(target: str, regs: list[str]):
+    """`c19.reserve {regs = [...]}`: an operation defined by this harness against xDSL's public
+    extension interface for register allocation (HasRegisterConstraints with no operands / results,
+    iter_excluded_registers = its `regs` attribute).  It lets the check declare ANY register of either
+    class as excluded, at any nesting depth, for both targets — the only operations of xDSL itself that
+    declare excluded registers are riscv_snitch.read / write (always ft0, ft1, ft2)."""
+    if "cls" not in _RESERVE:
+        from xdsl.backend.register_allocatable import HasRegisterConstraints, RegisterConstraints
+        from xdsl.dialects.builtin import ArrayAttr
+        from xdsl.ir import Attribute
+        from xdsl.irdl import IRDLOperation, attr_def, irdl_op_definition
+
+        @irdl_op_definition
+        class ReserveOp(HasRegisterConstraints, IRDLOperation):
+            name = "c19.reserve"
+            regs = attr_def(ArrayAttr[Attribute])
+
+            def get_register_constraints(self):
+                return RegisterConstraints((), (), ())
+
+            def iter_excluded_registers(self):
+                yield from self.regs.data
+
+        _RESERVE["cls"] = ReserveOp
+    from xdsl.dialects.builtin import ArrayAttr
+
+    if target == "riscv":
+        tys = [_rv_type("i" if r in RV_INT or r.startswith("j_") else "f", r) for r in regs]
+    else:
+        tys = [_x86_type(r) for r in regs]
+    return _RESERVE["cls"](attributes={"regs": ArrayAttr(tys)})
 
 
 def extract(func, target: str, rets_from: dict | None = None) -> dict:
@@ -793,10 +1029,12 @@ def extract(func, target: str, rets_from: dict | None = None) -> dict:
                 return "pmov"
             if n.startswith("riscv."):
                 return n[6:]
+            if n.startswith("riscv_snitch.") or n == "c19.reserve":
+                return {"c19.reserve": "resv", "riscv_snitch.read": "sread", "riscv_snitch.write": "swrite"}.get(n, n)
         else:
             if n.startswith("x86."):
                 return n[4:]
-        return n
+        return {"c19.reserve": "resv", "riscv_snitch.read": "sread", "riscv_snitch.write": "swrite"}.get(n, n)
 
     def block(b, term_names):
         ops = []
@@ -805,7 +1043,30 @@ def extract(func, target: str, rets_from: dict | None = None) -> dict:
             if op.name in term_names:
                 term = op
                 break
+            if op.name == "test.op":
+                continue            # defines the streams (no register values)
             k = opname(op)
+            if k == "resv":
+                ops.append({"k": "resv", "regs": [r.register_name.data for r in op.attributes["regs"].data],
+                            "ins": [], "outs": [], "io": []})
+                continue
+            if k == "sread":
+                ops.append({"k": k, "ins": [], "outs": [new(op.results[0])], "io": []})
+                continue
+            if k == "swrite":
+                ops.append({"k": k, "ins": [use(op.operands[0], "stream write value")], "outs": [], "io": []})
+                continue
+            if op.name == "riscv_snitch.frep_outer":
+                rep_ = use(op.max_rep, "frep repetition count")
+                inits = [use(v, "frep iter_arg") for v in op.iter_args]
+                body = op.body.block
+                bargs = [new(a) for a in body.args]
+                bops, y = block(body, ("riscv_snitch.frep_yield",))
+                yields = [use(v, "frep_yield operand") for v in y.operands]
+                res = [new(r) for r in op.results]
+                ops.append({"k": "for", "frep": True, "rep": rep_, "iv": None, "inits": inits, "bargs": bargs,
+                            "body": bops, "yields": yields, "res": res})
+                continue
             if op.name == "riscv_scf.for":
                 lb = use(op.lb, "for lb")
                 ub = use(op.ub, "for ub")
@@ -870,13 +1131,16 @@ def shape(prog: dict) -> Any:
     def block(ops):
         out = []
         for op in ops:
-            if op["k"] == "for":
+            if op["k"] == "for" and op.get("frep"):
+                out.append(("frep", op["rep"], tuple(op["inits"]), tuple(map(tuple, map(d3, op["bargs"]))),
+                            block(op["body"]), tuple(op["yields"]), tuple(map(tuple, map(d3, op["res"])))))
+            elif op["k"] == "for":
                 out.append(("for", op["lb"], op["ub"], json.dumps(op["step"]), tuple(op["inits"]), tuple(d3(op["iv"])),
                             tuple(map(tuple, map(d3, op["bargs"]))), block(op["body"]), tuple(op["yields"]),
                             tuple(map(tuple, map(d3, op["res"])))))
             else:
                 out.append((op["k"], op.get("imm"), tuple(op["ins"]), tuple(map(tuple, map(d3, op["outs"]))),
-                            tuple((p[0], tuple(d3(p[1]))) for p in op.get("io", []))))
+                            tuple((p[0], tuple(d3(p[1]))) for p in op.get("io", [])), tuple(op.get("regs", ()))))
         return tuple(out)
 
     return (tuple(map(tuple, map(d3, prog["args"]))), block(prog["ops"]), tuple(prog["rets"]))
@@ -914,6 +1178,13 @@ def run_real(case: dict) -> dict:
     prog["pool"] = case.get("pool")
     prog["mode"] = mode
     res["prog"] = prog
+    try:
+        from xdsl.backend.register_allocatable import RegisterAllocatableOperation
+
+        res["excluded_impl"] = sorted(r.register_name.data for r in
+                                      RegisterAllocatableOperation.all_excluded_registers(func.body))
+    except Exception as e:  # noqa: BLE001
+        res["excluded_impl"] = "raise:" + core.exc_name(e)
     try:
         if t == "riscv":
             if mode == "pass":
@@ -1044,6 +1315,11 @@ def lean_lines(prog: dict, alloc: dict[int, str] | None, want_alloc: bool = True
     infbase = 1000 if t == "riscv" else 3000
     zero = 1 if t == "riscv" else 0
     head = f"{enc_prog(prog)} ; pre {enc_assign(t, pre)} ; pool {' '.join(str(reg_num(t, n)) for n in pool)} ; opt {zero} {inf} {infbase}"
+    excl = sorted(reg_num(t, r) for r in declared_reserved(prog))
+    if excl:
+        # registers declared by operations of the function: the model removes them from the stack like
+        # allocate_func does (`exclude_register` for all_used_registers | all_excluded_registers)
+        head += " ; excl " + " ".join(map(str, excl))
     lines = ["alloc " + head] if want_alloc else []
     if alloc is not None:
         lines.append("validate " + head + " ; asg " + enc_assign(t, alloc))
@@ -1077,6 +1353,12 @@ def unroll(prog: dict, alloc: dict[int, str]) -> tuple[dict, dict[int, str]]:
     ualloc: dict[int, str] = {}
     upre_cls: dict[int, tuple[str, str | None]] = {}
     vals = all_values(prog)
+    # a value that a loop-carried group ties to a pre-assigned block argument / result is pre-assigned
+    # by the input as well (block arguments and results are no values of the unrolled program)
+    forced = {v: r for v, r in canonical_alloc(prog).items() if not r.startswith(("virt", "multi:"))}
+
+    def pre_of(orig: int) -> str | None:
+        return vals[orig][1] or forced.get(orig)
 
     def fresh(orig: int) -> int:
         v = nxt[0]
@@ -1093,7 +1375,22 @@ def unroll(prog: dict, alloc: dict[int, str]) -> tuple[dict, dict[int, str]]:
             budget[0] -= 1
             if budget[0] < 0:
                 raise NotUnrollable("too large")
-            if op["k"] == "for":
+            if op["k"] == "for" and op.get("frep"):
+                if op["rep"] not in consts:
+                    raise NotUnrollable("repetition count is not a constant")
+                out.append({"k": "_use", "ins": [env[op["rep"]]], "outs": [], "io": []})     # frep.o reads it
+                carried = [env[i] for i in op["inits"]]
+                if (consts[op["rep"]] & M32) + 1 > LOOP_FUEL:
+                    raise NotUnrollable("too many iterations")
+                for _ in range((consts[op["rep"]] & M32) + 1):
+                    benv = dict(env)
+                    for b, cv in zip(op["bargs"], carried):
+                        benv[b[0]] = cv
+                    out.extend(block(op["body"], benv))
+                    carried = [benv[y] for y in op["yields"]]
+                for r, cv in zip(op["res"], carried):
+                    env[r[0]] = cv
+            elif op["k"] == "for":
                 for x in (op["lb"], op["ub"]):
                     if x not in consts:
                         raise NotUnrollable("bound is not a constant")
@@ -1103,7 +1400,7 @@ def unroll(prog: dict, alloc: dict[int, str]) -> tuple[dict, dict[int, str]]:
                 lo, hi = _s(consts[op["lb"]] & M32, 32), _s(consts[op["ub"]] & M32, 32)
                 st = consts[op["step"]["v"]] if step_dyn else op["step"]
                 iv = fresh(op["iv"][0])
-                out.append({"k": "mv", "ins": [env[op["lb"]]], "outs": [[iv, "i", vals[op["iv"][0]][1]]], "io": []})
+                out.append({"k": "mv", "ins": [env[op["lb"]]], "outs": [[iv, "i", pre_of(op["iv"][0])]], "io": []})
                 out.append({"k": "_use", "ins": [iv, env[op["ub"]]], "outs": [], "io": []})
                 carried = [env[i] for i in op["inits"]]
                 cur, n = lo, 0
@@ -1120,7 +1417,7 @@ def unroll(prog: dict, alloc: dict[int, str]) -> tuple[dict, dict[int, str]]:
                     iv2 = fresh(op["iv"][0])
                     ins = [iv] + ([env[op["step"]["v"]]] if step_dyn else [])
                     out.append({"k": "add" if step_dyn else "addi", "imm": None if step_dyn else st, "ins": ins,
-                                "outs": [[iv2, "i", vals[op["iv"][0]][1]]], "io": []})
+                                "outs": [[iv2, "i", pre_of(op["iv"][0])]], "io": []})
                     iv = iv2
                     out.append({"k": "_use", "ins": [iv, env[op["ub"]]], "outs": [], "io": []})
                     cur = _s((cur + st) & M32, 32)
@@ -1130,10 +1427,12 @@ def unroll(prog: dict, alloc: dict[int, str]) -> tuple[dict, dict[int, str]]:
                 o2: dict[str, Any] = {"k": op["k"], "ins": [env[v] for v in op["ins"]], "outs": [], "io": []}
                 if "imm" in op:
                     o2["imm"] = op["imm"]
+                if "regs" in op:
+                    o2["regs"] = list(op["regs"])
                 for d in op["outs"]:
                     nv = fresh(d[0])
                     env[d[0]] = nv
-                    o2["outs"].append([nv, d[1], d[2]])
+                    o2["outs"].append([nv, d[1], pre_of(d[0])])
                 out.append(o2)
         return out
 
@@ -1142,7 +1441,7 @@ def unroll(prog: dict, alloc: dict[int, str]) -> tuple[dict, dict[int, str]]:
     for a in prog["args"]:
         nv = fresh(a[0])
         env[a[0]] = nv
-        args.append([nv, a[1], a[2]])
+        args.append([nv, a[1], pre_of(a[0])])
     ops = block(prog["ops"], env)
     up = {"target": prog["target"], "mode": prog.get("mode", "pass"), "pool": prog.get("pool"), "args": args,
           "ops": ops, "rets": [env[r] for r in prog["rets"]]}
@@ -1162,6 +1461,10 @@ class Gen:
         self.t = target
         self.next = 0
         self.preassigned: set[int] = set()
+        # Snitch streaming: {"ports": stream registers in use, "depths": nesting depths at which
+        # stream reads / writes are generated, "p": rate}
+        self.streams: dict | None = None
+        self.frep = 0.0          # rate of riscv_snitch.frep_outer loops (float-only bodies)
 
     def vid(self) -> int:
         self.next += 1
@@ -1184,6 +1487,21 @@ def gen_riscv_block(g: Gen, avail_i: list[int], avail_f: list[int], n_ops: int, 
     ikinds = ["li", "mv", "add", "sub", "mul", "and", "or", "xor", "slt", "sltu", "addi", "andi", "ori", "xori"]
     for _ in range(n_ops):
         r = rng.random()
+        st = g.streams
+        if st is not None and depth in st["depths"] and rng.random() < st["p"]:
+            new_ops = gen_stream_access(g, avail_i, avail_f)
+            for o in new_ops:
+                for d in o["outs"]:
+                    local.append(d[0])
+            ops.extend(new_ops)
+            continue
+        if g.frep and floats and rng.random() < g.frep and (avail_f or avail_i):
+            new_ops = gen_frep(g, avail_i, avail_f, depth, local)
+            ops.extend(new_ops)
+            for d in new_ops[-1]["res"]:
+                avail_f.append(d[0])
+                local.append(d[0])
+            continue
         if loops and depth < 2 and r < 0.18 and avail_i:
             ops.append(gen_riscv_loop(g, avail_i, avail_f, depth, dirty, floats, local))
             for d in ops[-1]["res"]:
@@ -1223,6 +1541,104 @@ def gen_riscv_block(g: Gen, avail_i: list[int], avail_f: list[int], n_ops: int, 
         (avail_i if o[1] == "i" else avail_f).append(o[0])
         local.append(o[0])
     return ops
+
+
+def gen_stream_access(g: Gen, avail_i: list[int], avail_f: list[int], float_only: bool = False) -> list[dict]:
+    """One Snitch stream access as the snitch lowering produces it: a value read from a stream sits in
+    the stream's register (ft0..ft2) and is consumed at once; a written value is computed into the
+    stream's register right before the write.  The ports in use are fixed per function."""
+    rng = g.rng
+    ports = g.streams["ports"]
+    ops: list[dict] = []
+
+    def fval() -> int:
+        if avail_f and (float_only or rng.random() < 0.8):
+            return g.pick(avail_f)
+        v = g.vid()
+        if avail_i:
+            ops.append({"k": "fcvt.s.w", "ins": [g.pick(avail_i)], "outs": [[v, "f", None]], "io": []})
+        else:
+            c = g.vid()
+            ops.append({"k": "li", "imm": rng.randint(1, 9), "ins": [], "outs": [[c, "i", None]], "io": []})
+            avail_i.append(c)
+            ops.append({"k": "fcvt.s.w", "ins": [c], "outs": [[v, "f", None]], "io": []})
+        avail_f.append(v)
+        return v
+
+    what = rng.choice(["read", "read", "read2", "write", "read-write"])
+    srcs: list[int] = []
+    if what != "write":
+        for port in rng.sample(ports, min(len(ports), 2 if what == "read2" else 1)):
+            x = g.vid()
+            ops.append({"k": "sread", "ins": [], "outs": [[x, "f", port]], "io": []})
+            g.preassigned.add(x)
+            srcs.append(x)
+        if rng.random() < 0.08:
+            avail_f.append(srcs[0])        # (rarely) kept around: a long live range in a stream register
+    a = srcs[0] if srcs else fval()
+    b = srcs[1] if len(srcs) > 1 else fval()
+    k = rng.choice(["fadd.s", "fmul.s", "fsub.s"])
+    y = g.vid()
+    if what in ("write", "read-write"):
+        ops.append({"k": k, "ins": [a, b], "outs": [[y, "f", rng.choice(ports)]], "io": []})
+        g.preassigned.add(y)
+        ops.append({"k": "swrite", "ins": [y], "outs": [], "io": []})
+    else:
+        ops.append({"k": k, "ins": [a, b], "outs": [[y, "f", None]], "io": []})
+        avail_f.append(y)
+    return ops
+
+
+def gen_frep(g: Gen, avail_i: list[int], avail_f: list[int], depth: int, local: list[int]) -> list[dict]:
+    """`riscv_snitch.frep_outer %rep iter_args(..)`: a hardware loop whose body may only contain FPU
+    instructions and stream accesses — the place where Snitch kernels read and write their streams.
+    Loop-carried floats follow the in/out discipline (inits are consumed, fresh yields are defined at
+    the end of the body)."""
+    rng = g.rng
+    out: list[dict] = []
+    if not avail_f:
+        v = g.vid()
+        out.append({"k": "fcvt.s.w", "ins": [g.pick(avail_i)], "outs": [[v, "f", None]], "io": []})
+        avail_f.append(v)
+        local.append(v)
+    cand = [v for v in local if v in avail_f and v not in g.preassigned]
+    inits: list[int] = []
+    for _ in range(rng.randint(0, 2)):
+        if cand:
+            v = rng.choice(cand)
+            cand.remove(v)
+            inits.append(v)
+    for v in inits:
+        avail_f.remove(v)
+        local.remove(v)
+    bargs = [[g.vid(), "f", None] for _ in inits]
+    barg_ids = [b[0] for b in bargs]
+    inner_f = list(avail_f) + barg_ids
+    body: list[dict] = []
+    st = g.streams
+    for _ in range(rng.randint(0, 4)):
+        if st is not None and (depth + 1) in st["depths"] and rng.random() < max(st["p"], 0.4):
+            body.extend(gen_stream_access(g, [], inner_f, float_only=True))
+            continue
+        k = rng.choice(["fadd.s", "fmul.s", "fsub.s", "fmv.s"])
+        z = g.vid()
+        body.append({"k": k, "ins": [g.pick(inner_f) for _ in RV_KINDS[k][0]], "outs": [[z, "f", None]], "io": []})
+        inner_f.append(z)
+    yields: list[int] = []
+    for kidx, b in enumerate(bargs):
+        if rng.random() < 0.25:
+            yields.append(b[0])
+            continue
+        later = barg_ids[kidx:]
+        srcs = [v for v in inner_f if v not in barg_ids[:kidx] and (v in later or v not in barg_ids) and v not in yields]
+        k = rng.choice(["fadd.s", "fmul.s", "fmv.s"])
+        z = g.vid()
+        body.append({"k": k, "ins": [rng.choice([b[0]] + srcs) for _ in RV_KINDS[k][0]], "outs": [[z, "f", None]], "io": []})
+        inner_f.append(z)
+        yields.append(z)
+    out.append({"k": "for", "frep": True, "rep": None, "iv": None, "inits": inits, "bargs": bargs, "body": body,
+                "yields": yields, "res": [[g.vid(), "f", None] for _ in inits]})
+    return out
 
 
 def gen_riscv_loop(g: Gen, avail_i: list[int], avail_f: list[int], depth: int, dirty: bool, floats: bool,
@@ -1302,6 +1718,13 @@ def finish_loops(g: Gen, ops: list[dict], avail_i: list[int], hoist: list[dict] 
             op["body"] = finish_loops(g, op["body"], avail_i, inner_hoist)
             if hoist is None:
                 out.extend(inner_hoist)          # bounds of nested loops hoisted to here
+            if op.get("frep"):
+                rv = g.vid()
+                o = {"k": "li", "imm": rng.choice([0, 1, 1, 2, 3]), "ins": [], "outs": [[rv, "i", None]], "io": []}
+                (hoist if hoist is not None and rng.random() < 0.5 else out).append(o)
+                op["rep"] = rv
+                out.append(op)
+                continue
             lo = rng.choice([0, 0, 1, 2, -1])
             hi = lo + rng.choice([0, 1, 2, 3, 4])
             lbv, ubv = g.vid(), g.vid()
@@ -1432,8 +1855,10 @@ def gen_riscv_nested(rng) -> dict:
     return {"target": "riscv", "mode": "pass", "pool": None, "args": args, "ops": ops, "rets": rets}
 
 
-def gen_riscv(rng, size: int, loops: bool, dirty: bool, floats: bool) -> dict:
+def gen_riscv(rng, size: int, loops: bool, dirty: bool, floats: bool, streams: dict | None = None) -> dict:
     g = Gen(rng, "riscv")
+    g.streams = streams
+    g.frep = 0.12 if streams is not None else (0.04 if floats and loops and not dirty else 0.0)
     nargs = rng.randint(0, 4)
     args = [[g.vid(), "i", f"a{i}"] for i in range(nargs)]
     avail_i = [a[0] for a in args]
@@ -1531,7 +1956,7 @@ def gen_x86(rng, size: int, disciplined: bool) -> dict:
             v = g.vid()
             ops.append({"k": "ds.mov", "ins": [a[0]], "outs": [[v, "i", None]], "io": []})
             avail.append(v)
-    kinds = list(X86_KINDS)
+    kinds = [k for k in X86_KINDS if k != "resv"]
     # future uses are unknown while generating forwards: for disciplined programs an in/out operand is
     # consumed (removed from the available list) by the instruction
     for _ in range(size):
@@ -1591,7 +2016,8 @@ def add_preassignment(rng, case: dict, rate: float) -> None:
                 yield from defs(op["body"])
                 for d in op["res"]:
                     yield d
-                yield op["iv"]
+                if op.get("iv"):
+                    yield op["iv"]
                 for b in op["bargs"]:
                     yield b
             else:
@@ -1621,7 +2047,7 @@ def add_preassignment(rng, case: dict, rate: float) -> None:
                 grp = [by_id[lp["inits"][k]], lp["bargs"][k], by_id[lp["yields"][k]], lp["res"][k]]
                 if any(d[2] is not None for d in grp):
                     continue
-                r = rng.choice(names)
+                r = rng.choice(names if lp["bargs"][k][1] == "i" else fnames)
                 for d in grp:
                     d[2] = r
                 if feasibility(case) is not None:
@@ -1645,6 +2071,52 @@ def restrict_pool(rng, case: dict) -> None:
         pool += rng.sample(RV_POOL_F, rng.randint(1, 4))
     case["pool"] = pool
     case["mode"] = "pool_infinite" if rng.random() < 0.1 else "pool"
+
+
+def pop_order(case: dict, cls: str = "i") -> list[str]:
+    """registers of one class in the order in which an untouched stack hands them out"""
+    t = case["target"]
+    if case.get("pool") is not None:
+        order = list(reversed(case["pool"]))            # RegisterStack.get pushes in order, pop takes the last
+    elif case.get("mode") == "force_infinite":
+        order = []
+    else:
+        order = list(RV_POOL_I + RV_POOL_F) if t == "riscv" else list(X86_POOL)
+    if t == "riscv":
+        order = [r for r in order if (r in RV_FLT) == (cls == "f")]
+    return order
+
+
+def add_reservations(rng, case: dict) -> None:
+    """insert 1..3 `c19.reserve` operations (each declaring 1..3 registers as excluded) at random
+    places of the function: top level and / or loop bodies of any depth.  The registers are mostly the
+    ones the allocator would hand out first."""
+    t = case["target"]
+    blocks: list[tuple[int, list]] = []
+
+    def collect(ops, depth):
+        blocks.append((depth, ops))
+        for op in ops:
+            if op["k"] == "for" and not op.get("frep"):      # (a frep body admits FPU instructions only)
+                collect(op["body"], depth + 1)
+
+    collect(case["ops"], 0)
+    nested = [b for b in blocks if b[0] > 0]
+    where = rng.choice(["top", "nested", "nested", "any"]) if nested else "top"
+    cands = {"top": blocks[:1], "nested": nested, "any": blocks}[where]
+    classes = ["i"] + (["f"] if t == "riscv" and any(c == "f" for c, _ in all_values(case).values()) else [])
+    for _ in range(rng.randint(1, 3)):
+        _, ops = rng.choice(cands)
+        regs: list[str] = []
+        for _ in range(rng.randint(1, 3)):
+            order = pop_order(case, rng.choice(classes))
+            everything = (RV_INT[5:] + RV_FLT) if t == "riscv" else X86_GPR
+            r = rng.choice(order[:4]) if order and rng.random() < 0.7 else rng.choice(order or everything) \
+                if rng.random() < 0.8 else rng.choice(everything)
+            if r not in regs and r not in ("sp", "rsp"):
+                regs.append(r)
+        if regs:
+            ops.insert(rng.randint(0, len(ops)), {"k": "resv", "regs": regs, "ins": [], "outs": [], "io": []})
 
 
 # =============================================================================================
@@ -1722,6 +2194,28 @@ def judge(case: dict, res: dict, rng) -> tuple[str, str, str] | None:
         if undisciplined:
             return (loop_site, SIG_LOOP_DISCIPLINE, f"infeasible input ({feas}) accepted; %{v} got {r}")
         return (site, "register outside the allocatable pool handed out", f"%{v} got {r}, pool is {sorted(pool)}")
+    # (2) reserved registers: a register that some operation of the function (at any nesting depth)
+    # reserves for itself is never handed out; a value may sit in it only because the input says so
+    # (pre-assigned, or tied by an in/out pair / loop-carried group to a pre-assigned value)
+    reserved = declared_reserved(prog)
+    if reserved:
+        forced = canonical_alloc(prog)
+        for v, r in sorted(alloc.items()):
+            if pre[v] is None and r in reserved and forced.get(v) != r:
+                if undisciplined:
+                    break
+                impl = res.get("excluded_impl")
+                # inputs that consist of xDSL's own operations only (Snitch stream accesses) and inputs
+                # that declare the register through the harness-defined `c19.reserve` are kept apart
+                what = ("Snitch stream register (reserved by riscv_snitch.read / write)" if reserved[r].endswith(("(sread)", "(swrite)"))
+                        else "register reserved by an operation of the function (iter_excluded_registers)")
+                if isinstance(impl, list) and r not in impl:
+                    return ("xdsl.backend.register_allocatable.RegisterAllocatableOperation.all_excluded_registers",
+                            what + " is handed out: missing from all_excluded_registers",
+                            f"%{v} got {r}, which {reserved[r]} reserves; all_excluded_registers(func.body) = {impl}, "
+                            f"declared in the function: {sorted(reserved)}")
+                return (site, what + " is handed out",
+                        f"%{v} got {r}, which {reserved[r]} reserves (all_excluded_registers = {impl})")
     # (1) interference
     try:
         check_interference(prog, alloc, zero_name="zero" if t == "riscv" else None)
@@ -1745,6 +2239,8 @@ def judge(case: dict, res: dict, rng) -> tuple[str, str, str] | None:
             if got != want:
                 return (site, "register-machine execution differs from SSA execution",
                         f"inputs {inp}: SSA results {want}, register machine {got}")
+    if undisciplined and feasibility(prog, zero_groups=True) is None:
+        return None     # valid after all: the tied values are constant zeros and the allocator put them in `zero`
     if undisciplined:
         # cannot happen if the oracle is right: an infeasible input passed every check
         raise core.InfraError(f"oracle inconsistency: infeasible input ({feas}) passed the interference check")
@@ -1863,6 +2359,11 @@ def process(ctx: core.Ctx, case: dict, lean_batch: list, stream: str) -> None:
     ctx.count("status." + res["status"].split(":")[0] + (":" + res["status"].split(":")[1] if ":" in res["status"] else ""))
     ctx.programs += 1
     prog = res["prog"]
+    if "excluded_impl" in res:
+        WALK_BATCH.append((case, reserve_tree(prog), res["excluded_impl"]))
+        nres = len(declared_reserved(prog))
+        if nres:
+            ctx.count("reserving-ops." + ("nested-only" if not any(op_reserves(o) for o in prog["ops"]) else "top-level"))
     verdict = judge(case, res, ctx.rng)
     if res["status"] == "ok":
         p = max_pressure(prog)
@@ -1909,7 +2410,29 @@ def process(ctx: core.Ctx, case: dict, lean_batch: list, stream: str) -> None:
         lean_batch.append((case, up, {"status": "ok", "alloc": ualloc}, "validate-unrolled"))
 
 
+WALK_BATCH: list = []
+
+
+def flush_walk(ctx: core.Ctx) -> None:
+    """RegisterAllocatableOperation.all_excluded_registers(func.body) of every generated function
+    against the Lean model `allExcluded` (proved: a register is in the result iff some operation at
+    some nesting depth declares it)."""
+    if not WALK_BATCH:
+        return
+    out = ctx.model("excluded_walk", [w[1] for w in WALK_BATCH])
+    for (case, line, impl), model in zip(WALK_BATCH, out):
+        t = case["target"]
+        obs = impl if isinstance(impl, str) else "excl " + " ".join(map(str, sorted(reg_num(t, r) for r in impl)))
+        ctx.count("lean.excluded_walk_queries")
+        if " ".join(obs.split()) != " ".join(model.split()):
+            ctx.mismatch("correspondence:C19/excluded_walk", case, [obs], [model],
+                         "all_excluded_registers(func.body) differs from the Lean model allExcluded of the operation "
+                         f"tree `{line}` (registers as protocol numbers)")
+    WALK_BATCH.clear()
+
+
 def flush_lean(ctx: core.Ctx, lean_batch: list) -> None:
+    flush_walk(ctx)
     if not lean_batch:
         return
     lines: list[str] = []
@@ -1958,10 +2481,13 @@ def renumber(case: dict) -> dict:
         out = []
         for op in ops:
             if op["k"] == "for":
-                o = {"k": "for", "lb": m[op["lb"]], "ub": m[op["ub"]],
-                     "step": op["step"] if isinstance(op["step"], int) else {"v": m[op["step"]["v"]]},
-                     "inits": [m[i] for i in op["inits"]]}
-                o["iv"] = new(op["iv"])
+                if op.get("frep"):
+                    o = {"k": "for", "frep": True, "rep": m[op["rep"]], "iv": None, "inits": [m[i] for i in op["inits"]]}
+                else:
+                    o = {"k": "for", "lb": m[op["lb"]], "ub": m[op["ub"]],
+                         "step": op["step"] if isinstance(op["step"], int) else {"v": m[op["step"]["v"]]},
+                         "inits": [m[i] for i in op["inits"]]}
+                    o["iv"] = new(op["iv"])
                 o["bargs"] = [new(b) for b in op["bargs"]]
                 o["body"] = block(op["body"])
                 o["yields"] = [m[y] for y in op["yields"]]
@@ -1970,6 +2496,8 @@ def renumber(case: dict) -> dict:
                 o = {"k": op["k"], "ins": [m[i] for i in op["ins"]]}
                 if "imm" in op:
                     o["imm"] = op["imm"]
+                if "regs" in op:
+                    o["regs"] = list(op["regs"])
                 ins_io = [m[p[0]] for p in op.get("io", [])]
                 if op.get("io"):
                     # x86 in/out results are numbered like plain results
@@ -2004,14 +2532,20 @@ def gen_case_raw(rng, tier: str) -> tuple[dict, str]:
     elif r < 0.60:
         case = gen_riscv(rng, rng.randint(1, 8), loops=True, dirty=True, floats=False)
         stream = "riscv.loops-undisciplined"
-    elif r < 0.68:
+    elif r < 0.66:
         case = gen_riscv_nested(rng)
         stream = "riscv.nested"
-    elif r < 0.76:
+    elif r < 0.74:
+        # Snitch streaming: reads / writes of the stream registers at the top level and / or inside loops
+        st = {"ports": rng.sample(STREAM_REGS, rng.choice([1, 1, 2, 3])),
+              "depths": rng.choice([{0}, {1, 2, 3}, {1, 2, 3}, {1}, {2, 3}, {0, 1, 2, 3}]), "p": rng.choice([0.2, 0.35])}
+        case = gen_riscv(rng, rng.randint(3, 12), loops=True, dirty=False, floats=True, streams=st)
+        stream = "riscv.streams"
+    elif r < 0.80:
         t = rng.choice(["riscv", "x86"])
         case = gen_fan(rng, t, rng.randint(1, 17), False)
         stream = t + ".fan"
-    elif r < 0.90:
+    elif r < 0.92:
         case = gen_x86(rng, rng.randint(1, 16), disciplined=True)
         stream = "x86.straight"
     else:
@@ -2025,6 +2559,9 @@ def gen_case_raw(rng, tier: str) -> tuple[dict, str]:
         restrict_pool(rng, case)
     elif m < 0.42 and case["target"] == "riscv":
         case["mode"] = rng.choice(["allow_infinite", "force_infinite"])
+    if rng.random() < 0.12 and not stream.endswith(".fan"):
+        add_reservations(rng, case)
+        stream += "+reserve"
     if stream.endswith(".fan") and rng.random() < 0.6:
         # pool sizes around the pressure: k live values against k-1 .. k+1 registers
         base = RV_POOL_I if case["target"] == "riscv" else X86_POOL
@@ -2066,6 +2603,25 @@ def fixed_cases() -> list[tuple[dict, str]]:
         "fixed.pmov-preassigned"))
     # reserved infinite register pushed back inside the loop body
     out.append(({"target": "riscv", "mode": "force_infinite", "pool": None, "args": [], "ops": [{"k": "li", "imm": 7, "ins": [], "outs": [[0, "i", None]], "io": []}, {"k": "li", "imm": 1, "ins": [], "outs": [[1, "i", None]], "io": []}, {"k": "li", "imm": 4, "ins": [], "outs": [[2, "i", None]], "io": []}, {"k": "li", "imm": 2, "ins": [], "outs": [[3, "i", None]], "io": []}, {"k": "add", "ins": [1, 2], "outs": [[4, "i", None]], "io": []}, {"k": "for", "lb": 3, "ub": 4, "step": 1, "inits": [0], "iv": [5, "i", None], "bargs": [[6, "i", None]], "body": [{"k": "addi", "imm": 1, "ins": [6], "outs": [[7, "i", None]], "io": []}], "yields": [7], "res": [[8, "i", None]]}], "rets": [8]}, "fixed.reserved-infinite"))
+    # loop-carried constant zero that yields its own init: the whole group lives in `zero` (feasible)
+    out.append(({"target": "riscv", "mode": "pass", "pool": None, "args": [], "ops": [
+        {"k": "li", "imm": 0, "ins": [], "outs": [[0, "i", None]], "io": []},
+        {"k": "li", "imm": 1, "ins": [], "outs": [[1, "i", None]], "io": []},
+        {"k": "li", "imm": 5, "ins": [], "outs": [[2, "i", None]], "io": []},
+        {"k": "for", "lb": 1, "ub": 2, "step": 3, "inits": [0], "iv": [3, "i", None], "bargs": [[4, "i", None]], "body": [
+            {"k": "andi", "imm": -1, "ins": [4], "outs": [[5, "i", None]], "io": []}], "yields": [0], "res": [[6, "i", None]]}],
+        "rets": [1]}, "fixed.zero-carried-yields-init"))
+    # Snitch stream read inside a loop body: ft0, ft1, ft2 are reserved for the whole function
+    out.append(({"target": "riscv", "mode": "pass", "pool": None, "args": [[0, "i", "a0"]], "ops": [
+        {"k": "li", "imm": 0, "ins": [], "outs": [[1, "i", None]], "io": []},
+        {"k": "li", "imm": 3, "ins": [], "outs": [[2, "i", None]], "io": []},
+        {"k": "fcvt.s.w", "ins": [0], "outs": [[3, "f", None]], "io": []},
+        {"k": "for", "lb": 1, "ub": 2, "step": 1, "inits": [], "iv": [4, "i", None], "bargs": [], "body": [
+            {"k": "sread", "ins": [], "outs": [[5, "f", "ft0"]], "io": []},
+            {"k": "fmul.s", "ins": [5, 3], "outs": [[6, "f", None]], "io": []},
+            {"k": "fadd.s", "ins": [6, 6], "outs": [[7, "f", "ft1"]], "io": []},
+            {"k": "swrite", "ins": [7], "outs": [], "io": []}], "yields": [], "res": []},
+        {"k": "fcvt.w.s", "ins": [3], "outs": [[8, "i", "a0"]], "io": []}], "rets": [8]}, "fixed.stream-in-loop"))
     return out
 
 
@@ -2263,6 +2819,7 @@ def run_register_stack(ctx: core.Ctx, nfinite: int, depth: int, memo: bool) -> N
 
 def run(ctx: core.Ctx) -> None:
     ctx.lean()
+    WALK_BATCH.clear()
     quick = ctx.tier == "quick"
     budget = ctx.budget_s
     lean_batch: list = []
